@@ -362,6 +362,12 @@ func mixGrow(w *W, idx, rep int) map[string]int64 {
 						atomic.AddInt64(&reads, 1)
 						return nil
 					})
+					// every selection helper, on several names at once, while the extent moves
+					c.Query(func(txn *column.Txn) error {
+						txn.With("a").WithUnion("b", "e", "f").Without("m").Union("s", "u").Count()
+						atomic.AddInt64(&reads, 1)
+						return nil
+					})
 				}
 			}
 		})
